@@ -1,2 +1,135 @@
-def run_fuzz(r, target, pid, secs):
-    r.stats.notes.append("fuzz driver not built yet")
+"""libFuzzer campaigns: build, run N jobs for a time budget, confirm artifacts, fold statistics into the evidence."""
+import glob
+import os
+import re
+import shutil
+import subprocess
+import sys
+
+import build as buildmod
+from runner import Failure, VERIF, NWORKERS
+
+SEED_TEXTS = [
+    "i = 3\nil += {30}\ntm a { x = 9 }\nfn(q, \"r s\")\ns = \"a\\x41b\"\n",
+    "single { x = 1 zl = {1,2,} }\nmulti { }\nmulti { y = 'q' }\ntu t { }\nnest { deeper a { e = 1 } }\n",
+    "include(inc_ok.conf)\nsec { include(inc_deep0.conf) g(a, b) }\n",
+    "p = v\npl = {a, b}\nsec t { q = 1 ql = {x} }\nsec t { }\n",
+    "kv { a = 1 b = \"two\" }\nkvm t { known = x other = y }\n",
+    "old = 3\ngone = 4\noldl = {b}\nlast = q\n",
+    "# c\n// d\n/* e\n f */ i = 1\ns = ${HOME}\nsn = \"${NOPE:-dflt}\"\n",
+    "unk { a = 1 b { c = {1,2} } }\nunk2 += {1}\nunk3(a, b)\ni = 4\n",
+]
+
+
+def env_for(work):
+    e = dict(os.environ)
+    e["ASAN_OPTIONS"] = "detect_leaks=0:abort_on_error=1:allocator_may_return_null=1:symbolize=1"
+    e["UBSAN_OPTIONS"] = "print_stacktrace=1:halt_on_error=1"
+    e["VT_FUZZ_WORK"] = work
+    return e
+
+
+def replay_artifact(exe, path, work, timeout=100):
+    """returns (failed: bool, output)"""
+    try:
+        r = subprocess.run([exe, "-timeout=%d" % timeout, "-rss_limit_mb=4096", path], env=env_for(work), cwd=work,
+                           stdout=subprocess.PIPE, stderr=subprocess.STDOUT, timeout=timeout * 3)
+    except subprocess.TimeoutExpired:
+        return True, "timeout on replay"
+    return r.returncode != 0, r.stdout.decode("latin-1", "replace")
+
+
+def run_fuzz(r, target, pid, secs, empty_corpus_too=False):
+    d = buildmod.build(("fuzz",))
+    exe = os.path.join(d, "fuzz", target)
+    work = os.path.join(r.workdir, "fuzz")
+    runs = [("seeded", True)] + ([("empty", False)] if empty_corpus_too else [])
+    for tag, seeded in runs:
+        wd = os.path.join(work, tag)
+        corpus = os.path.join(wd, "corpus")
+        art = os.path.join(wd, "art")
+        os.makedirs(corpus, exist_ok=True)
+        os.makedirs(art, exist_ok=True)
+        if seeded:
+            n = 0
+            for pat in ("/repo/tests/*.conf", "/repo/examples/*.conf"):
+                for f in glob.glob(pat):
+                    data = open(f, "rb").read()
+                    for sc in range(8):
+                        open(os.path.join(corpus, "seed%d_%d" % (n, sc)), "wb").write(bytes([sc, (n * 7 + sc) & 31]) + data)
+                    n += 1
+            for i, t in enumerate(SEED_TEXTS):
+                for fl in (0, 2, 4, 7, 8, 16):
+                    open(os.path.join(corpus, "t%d_%d" % (i, fl)), "wb").write(bytes([i % 8, fl]) + t.encode("latin-1"))
+        else:
+            open(os.path.join(corpus, "empty"), "wb").write(b"\x00\x00")
+        seed = (r.seed % 100000) + 1
+        cmd = [exe, "-jobs=%d" % NWORKERS, "-workers=%d" % NWORKERS, "-max_total_time=%d" % secs, "-timeout=10",
+               "-rss_limit_mb=3000", "-max_len=4096", "-seed=%d" % seed, "-dict=%s" % os.path.join(VERIF, "fuzz", "tokens.dict"),
+               "-artifact_prefix=%s/" % art, "-print_final_stats=1", "-detect_leaks=0", corpus]
+        try:
+            subprocess.run(cmd, env=env_for(wd), cwd=wd, stdout=subprocess.DEVNULL, stderr=subprocess.DEVNULL, timeout=secs + 300)
+        except subprocess.TimeoutExpired:
+            r.stats.notes.append("fuzz %s: driver timeout (budget exhausted, inconclusive)" % tag)
+        execs = 0
+        cov = 0
+        for lg in glob.glob(os.path.join(wd, "**", "fuzz-*.log"), recursive=True):
+            txt = open(lg, errors="replace").read()
+            m = re.findall(r"stat::number_of_executed_units:\s+(\d+)", txt)
+            if m:
+                execs += int(m[-1])
+            else:
+                m2 = re.findall(r"#(\d+)\s+(?:NEW|REDUCE|pulse|RELOAD|DONE)", txt)
+                if m2:
+                    execs += int(m2[-1])
+            c = re.findall(r"cov: (\d+)", txt)
+            if c:
+                cov = max(cov, int(c[-1]))
+        r.stats.extra["fuzz_%s_execs" % tag] = execs
+        r.stats.extra["fuzz_%s_cov_edges" % tag] = cov
+        r.stats.extra["fuzz_%s_corpus" % tag] = len(os.listdir(corpus))
+        r.stats.evals += execs
+        # a sample of corpus units counts towards the distinct non-trivial set (structural bytes >= 2)
+        for name in os.listdir(corpus):
+            data = open(os.path.join(corpus, name), "rb").read()
+            if sum(1 for ch in b"={}(),\"'#\\$" if ch in data) >= 2:
+                r.stats.nontrivial.add(hash(data) & 0xFFFFFFFFFFFFFFFF)
+        if "fuzz" not in r.stats.samples:
+            names = sorted(os.listdir(corpus))[-3:]
+            r.stats.samples["fuzz"] = [open(os.path.join(corpus, n), "rb").read()[:200].decode("latin-1") for n in names]
+        noise = 0
+        for a in sorted(os.listdir(art)):
+            p = os.path.join(art, a)
+            if a.startswith(("slow-unit", "oom")):
+                noise += 1
+                continue
+            fails = 0
+            out = ""
+            for _ in range(3):
+                f, out = replay_artifact(exe, p, wd)
+                fails += f
+            if fails < 3:
+                r.stats.extra["fuzz_flaky_artifacts"] += 1
+                continue
+            keep = os.path.join(VERIF, "replays", pid)
+            os.makedirs(keep, exist_ok=True)
+            dst = os.path.join(keep, "fuzz-" + a)
+            shutil.copy(p, dst)
+            m = re.search(r"(VT-ORACLE: .*|AddressSanitizer: [\w-]+|runtime error: .*|ERROR: libFuzzer: [\w -]+)", out)
+            what = m.group(1) if m else "fuzz target failed"
+            fr = re.findall(r"#\d+ 0x[0-9a-f]+ in (cfg_\w+|q\w+|trim_\w+|call_function|parse_title) ", out)
+            r.violations.append((Failure("fuzz/%s/%s" % (what[:60], fr[0] if fr else "?"), out[-2500:], {"fuzz_artifact": dst}), dst))
+        r.stats.extra["fuzz_noise_artifacts"] += noise
+        shutil.rmtree(wd, ignore_errors=True)
+
+
+def replay_file(target, path):
+    d = buildmod.build(("fuzz",))
+    exe = os.path.join(d, "fuzz", target)
+    work = os.path.join(VERIF, "work", "fuzzreplay%d" % os.getpid())
+    os.makedirs(work, exist_ok=True)
+    try:
+        failed, out = replay_artifact(exe, path, work)
+    finally:
+        shutil.rmtree(work, ignore_errors=True)
+    return failed, out
